@@ -95,13 +95,16 @@ def gen_action(rng, nconn_guess, in_cb):
     return "K"
 
 
-def gen_case(rng, nops):
+def gen_case(rng, nops, deep=False):
+    """deep (thorough tier only): up to 6 client slots, callback nesting cut up to 12 (default 6), up to 7 actions per
+    behaviour entry, denser behaviour tables - a superset of what the quick tier generates."""
     ops = ["svc " + rng.choice(["shm", "sock"])]
-    if rng.random() < 0.2:
-        ops.append("depth %d" % rng.choice([0, 1, 2, 3]))
+    if rng.random() < (0.5 if deep else 0.2):
+        ops.append("depth %d" % rng.choice([0, 1, 2, 3, 5, 8, 12] if deep else [0, 1, 2, 3]))
     nconn = 0
-    slots = rng.choice([1, 2, 3, 4])
-    quietness = rng.choice([0.15, 0.4, 0.7])      # share of behaviour entries
+    slots = rng.choice([2, 4, 5, 6] if deep else [1, 2, 3, 4])
+    quietness = rng.choice([0.4, 0.7, 0.9] if deep else [0.15, 0.4, 0.7])      # share of behaviour entries
+    nacts = [1, 2, 3, 4, 5, 7] if deep else [0, 1, 1, 2, 3]
     for _ in range(nops):
         r = rng.random()
         if r < quietness * 0.5:
@@ -114,7 +117,7 @@ def gen_case(rng, nops):
                 ret = rng.choice([0, 1, 1, -1, 7])
             else:
                 ret = 0
-            acts = [gen_action(rng, nconn + 1, True) for _ in range(rng.choice([0, 1, 1, 2, 3]))]
+            acts = [gen_action(rng, nconn + 1, True) for _ in range(rng.choice(nacts))]
             ops.append(("beh %s %d " % (k, ret) + " ".join(acts)).strip())
         elif r < 0.25 or nconn == 0:
             ops.append("%s %d" % ("connx" if rng.random() < 0.08 else "conn", rng.randrange(slots)))
